@@ -103,13 +103,6 @@ func TestMain(m *testing.M) {
 	os.Exit(m.Run())
 }
 
-func propOf(p string) string {
-	if p == "C03scale" {
-		return "C03"
-	}
-	return p
-}
-
 func historyLines(res *Result) []string {
 	var out []string
 	for _, e := range res.Events {
